@@ -243,6 +243,14 @@ def gen_relay(work, tier, seed):
                 acts = [{"a": "cs", "decl": n, "carr": n}] + acts
             scripts.append({"id": "y%05d" % len(scripts), "origin": "size:%d" % n, "cfg": base_cfg(False), "transport": tr,
                             "tun": dict(H_A, user="nuser1"), "steps": steps, "actions": acts})
+    # the client stops reading for several seconds while the host keeps sending, then reads on: the gateway's writes
+    # block meanwhile, and what finally arrives is still exactly the host's stream in well-formed packets
+    for tr in ("ws", "legacy"):
+        for k, ms in enumerate([6500] if tier == "quick" else [1500, 6500, 12000]):
+            token = k % 2 == 1
+            acts = [{"a": "bs", "n": 300}, {"a": "bstall", "n": 24 << 20, "ms": ms}, {"a": "cs", "decl": 9, "carr": 9}, {"a": "bs", "n": 5000}]
+            scripts.insert(0, {"id": "y%05d" % len(scripts), "origin": "stall:%d" % ms, "cfg": base_cfg(token), "transport": tr,
+                               "tun": dict(H_A, user="user1" if token else "nuser1"), "steps": session(token)[:4], "actions": acts})
     return design, scripts
 
 
